@@ -181,7 +181,7 @@ theorem parseMembers_step (pf : PF) (tfs : TFields) (k : Bytes) (jv : GV) (rest 
     | none => simp [Res.bind]
     | some x => cases x <;> simp [Res.bind]
 
-theorem parseMembers_inv (pf : PF) (fs : Fields) (tfs : TFields) (hP : PresOK fs tfs) :
+theorem parseMembers_inv (pf : PF) (hpf : PFok pf) (fs : Fields) (tfs : TFields) (hP : PresOK fs tfs) :
     ∀ (ms : GMs) (fuel : Nat) (ents : List (Nat × RwT)), gmLen ms + 3 ≤ fuel → KeysNodup ms →
       (∀ k jv s, GMem k jv ms → gvString jv = some s → s.length < 2 ^ 64) →
       parseMembers pf fuel tfs ms [] = .ok ents → Inv pf tfs ms ents
@@ -199,8 +199,8 @@ theorem parseMembers_inv (pf : PF) (fs : Fields) (tfs : TFields) (hP : PresOK fs
       obtain ⟨n, rep, tt⟩ := p
       obtain ⟨rfl, kind, i, o, t, rfl, hfind, hkind, h0, h1⟩ := hP.scalar k n rep tt hl
       rw [parseMembers_step pf tfs k jv rest n kind hl f] at h
-      have hleaf := leaf_sem pf t o kind hkind n h0 h1 jv (fun s hs => hstr k jv s (Or.inl ⟨rfl, rfl⟩) hs)
-      cases hv : leafVal kind jv with
+      have hleaf := leaf_sem pf hpf t o kind hkind n h0 h1 jv (fun s hs => hstr k jv s (Or.inl ⟨rfl, rfl⟩) hs)
+      cases hv : leafVal pf kind jv with
       | none => rw [hv] at hleaf; simp [hleaf, Res.bind] at h
       | some x =>
         rw [hv] at hleaf
@@ -227,7 +227,7 @@ theorem parseMembers_inv (pf : PF) (fs : Fields) (tfs : TFields) (hP : PresOK fs
               simp only [hr, Res.ok.injEq] at h
               exact ⟨.raw rb, Or.inr ⟨rb, hp, rfl⟩, ⟨ents', rfl, h.symm⟩, hrl⟩
         obtain ⟨m, hrel, ⟨ents', hr, rfl⟩, hmsz⟩ := hent
-        have ih := parseMembers_inv pf fs tfs hP rest (f + 2) ents' (by omega) hnd.2
+        have ih := parseMembers_inv pf hpf fs tfs hP rest (f + 2) ents' (by omega) hnd.2
           (fun k' jv' s hm hs => hstr k' jv' s (Or.inr hm) hs) hr
         -- no other member has this field number
         have hfresh : ∀ q, q ∈ ents' → q.1 ≠ n := by
